@@ -35,7 +35,7 @@ theorem xml_reported_eq_sum_root (o : Opts) (orc : Oracle) (fp tp : List Nat) (f
     (xmlEdits o orc fp tp f t).cost =
       (strEdits f.tag t.tag).cost + (edits o orc (fp ++ [1]) (tp ++ [1]) f.attrib t.attrib).cost
         + (match textEdit f.text t.text with | some e => e.cost | none => 0)
-        + (kidsScript f.children t.children
+        + (kidsScript o f.children t.children
             (kidsTbl o orc fp tp (kidsIx f.text) (kidsIx t.text) f.children t.children)).cost := by
   obtain ⟨ftag, fattr, ftext, fcs⟩ := f
   obtain ⟨ttag, tattr, ttext, tcs⟩ := t
